@@ -56,3 +56,21 @@ Theorem C04_refuted_exact_size_link_headers :
                In w (wlog (st (fst (step s o)))) /\ ~ (fst w + snd w <= start e' \/ ext_end e' <= fst w).
 Proof. exact C04_refuted_exact_size_link_headers_l. Qed.
 Print Assumptions C04_refuted_exact_size_link_headers.
+
+(* /repo before 18bfe7a (the object header of a group made by CreateDenseGroup allocated at its exact size):
+   dataset a, dense group d, dataset b, first hard link to d -- the grown header of d overwrites b's data extent *)
+Theorem C04_refuted_exact_size_dense_group_header :
+  let s := run (init cfg_exact_dense 2) hist_dense_group in let o := OpHardLink 0 1 false 2 in
+  all_ok_pre (init cfg_exact_dense 2) hist_dense_group = true /\ snd (step s o) = true /\
+  exists e' w, In e' (exts (st s)) /\ targets s o (owner e') (kind_of e') = false /\
+               In w (wlog (st (fst (step s o)))) /\ ~ (fst w + snd w <= start e' \/ ext_end e' <= fst w).
+Proof. exact C04_refuted_exact_size_dense_group_header_l. Qed.
+Print Assumptions C04_refuted_exact_size_dense_group_header.
+
+(* with the reservation of 18bfe7a the same call stays inside the 7+255 bytes of d's header *)
+Theorem C04_dense_group_header_reserved :
+  let s := run (init cfg_fixed 2) hist_dense_group in let o := OpHardLink 0 1 false 2 in
+  snd (step s o) = true /\ frame_b s o = true /\
+  find_ext (exts (st s)) 2 KHeader = Some (mkExt 531033 max_hdr 2 KHeader).
+Proof. exact C04_dense_group_header_reserved_l. Qed.
+Print Assumptions C04_dense_group_header_reserved.
